@@ -50,6 +50,7 @@ def cases(tier):
     out = [{"kind": k} for k in ("eigen_tresca", "eigen_max", "eigen_min", "eigen_absmax", "eigen_signed_tresca_trace",
                                  "eigen_signed_tresca_absmax", "signed_mises", "mises", "bounds", "scaling", "accessor")]
     out += [{"kind": "rotation", "axis": a} for a in (0, 1, 2)]
+    out += [{"kind": k, "s11": "int"} for k in ("eigen_tresca", "eigen_max")]
     return out
 
 
@@ -161,12 +162,21 @@ def run(ctx, case):
     kind = case["kind"]
     t = _tensor(ctx)
     ctx.hint(sym_and(*[sym_and(x <= 4, x >= -4) for x in t]))
+    if case.get("s11") == "int":
+        # first component integer-typed (a whole number given as int), the others floats with fractional parts: dtype
+        # effects are invisible to the object-dtype run and show in the concrete replay of the path witness
+        t[0] = ctx.int("s11i")
+        ctx.hint(sym_and(t[3] == 0.5, t[1] == -1.5, t[0] <= 4, t[0] >= -4))
+        if not ctx.sym:
+            t[0] = int(round(t[0]))
     close = ctx.close
 
     if kind.startswith("eigen_"):
         # One function per case (each call of the code under test draws a fresh spectrum from the stub and
         # forks on its sign pattern).  No square root here: the path condition stays linear.
         def lam_of_last():
+            if ctx.sym and not fac.linalg.last:
+                return tuple(_eig(ctx, fac, t))       # the code under test did not ask for the spectrum: ask the stub for it
             return fac.linalg.last[-1] if ctx.sym else tuple(_eig(ctx, fac, t))
 
         def same_spectrum():
@@ -204,6 +214,8 @@ def run(ctx, case):
         else:
             raise RuntimeError("unknown function " + which)
         ctx.signature((kind, bool(trace < 0), bool(trace == 0), bool(l1 + l3 < 0), bool(l1 + l3 == 0)))
+        if case.get("s11") == "int":
+            return {"kind": kind}       # stub-independent observation: lets the path witness be replayed on the real code
         return None if ctx.sym else {"value": r}
 
     if kind == "signed_mises":
